@@ -21,7 +21,7 @@ def stages(tier, seed, bins):
     for i in range(n):
         m = rnd.choice(["le", "dm"])
         N = rnd.choice([10, 16, 30, 60, 120] + ([250] if tier == "thorough" else []))
-        kind = rnd.choice(["gauss", "swiss", "clusters", "scurve", "lattice", "jgrid"])
+        kind = rnd.choice(["gauss", "swiss", "clusters", "scurve", "lattice", "jgrid", "dup"])
         D = 3 if kind in ("swiss", "scurve") else rnd.choice([2, 3, 5])
         td = min(rnd.choice([1, 2, 3, 5]), N - 2)
         # width relative to the data scale (coordinates O(1..10)): six decades
@@ -29,6 +29,8 @@ def stages(tier, seed, bins):
         c = base(rnd, mode=m, method=m, N=N, D=D, td=td, data=kind, width=width, em="dense")
         if kind == "clusters":
             c.update(nc=rnd.choice([2, 3]), gap=rnd.choice([3, 6]), ratio=rnd.choice([1.0, 0.5]))
+        if kind == "dup":
+            c["copies"] = rnd.choice([2, 3])  # exact duplicates: zero distances carry the full heat weight exp(0) = 1
         if kind == "lattice":
             c["ldims"] = 2
         if kind == "jgrid":
